@@ -1287,7 +1287,7 @@ class Analysis:
             return widen(old, j, self._type_thresholds if hard else self.thresholds)
         if isinstance(old, P) and isinstance(new, P) and old.region == new.region:
             j = old.off.join(new.off)
-            return P(old.region, widen(old.off, j, [] if hard else self.thresholds + [s for s in [self.region_size(old.region)] if s]))
+            return P(old.region, widen(old.off, j, [] if hard else self.thresholds + [s for s in [self.region_size(old.region)] if isinstance(s, int) and s]))
         if isinstance(old, P) and isinstance(new, P):
             return UNKNOWN_PTR
         return new
